@@ -7,9 +7,9 @@
 (*   [name, mate (0 = no mate bit, 1, 2), seq, qual, ref (contig name, "*" when unplaced),       *)
 (*    pos, cigar ("*" when none), tid (index of the contig in the file's own header, -1 unplaced)]*)
 (* input records additionally carry the generator's ground truth                                 *)
-(*   pm    : 1/2 = mate number of a pair whose two mates are delivered together by the mate-     *)
-(*           pairing library (both mapped, same contig); 0 = single / half-mapped / orphan: the  *)
-(*           statement promises the mate number only "when both mates are present"               *)
+(*   pm    : 1/2 = mate number of a record whose mate is also in the file (proper pair, half-mapped  *)
+(*           pair, mates on different contigs, unmapped pair); 0 = single read / orphan whose mate   *)
+(*           is absent: the statement promises the mate number "when both mates are present"         *)
 (*   valid : the fragment the record belongs to is a valid fragment of the protocol              *)
 EXTENDS Integers, Sequences, FiniteSets, Util
 
